@@ -62,6 +62,17 @@ Theorem C10_oracle_is_gate : forall x y z mode force,
 Proof. exact gate_specb_correct. Qed.
 Print Assumptions C10_oracle_is_gate.
 
+
+(** the header check used by the model and all gate theorems is the function regenerated from
+    backend/hdf5/FileHDF5.cpp on every run *)
+Require NixV.FileIO.HeaderBridge NixV.Gen.GenFile.
+Theorem C10_checkHeader_is_generated : forall h m throw_error,
+  NixV.FileIO.Version.checkHeader h m throw_error =
+  NixV.Gen.GenFile.checkHeader (NixV.FileIO.HeaderBridge.mode_of m) throw_error (NixV.FileIO.HeaderBridge.attrs_of h)
+    NixV.FileIO.Version.my_version NixV.FileIO.Version.my_version.
+Proof. exact NixV.FileIO.HeaderBridge.checkHeader_is_generated. Qed.
+Print Assumptions C10_checkHeader_is_generated.
+
 (** non-vacuity: the gate really opens and really refuses *)
 Example C10_gate_nonvacuous :
   open_existing (good_header 1 2 0) ReadWrite false = Ok tt /\
